@@ -218,7 +218,7 @@ pub fn generate(tier: &str, rng: &mut Rng, out: &mut Vec<Rec>) {
     }
     // 2. random: larger and odd-shaped N (element-wise opcodes also on lengths that are not a power of two: SIMD body +
     //    tail), capacity above the active size, all backends, all domains
-    let reps = if thorough { 12000 } else { 900 };
+    let reps = if thorough { 6000 } else { 900 };
     for _ in 0..reps {
         let code = FIRST + rng.below((LAST - FIRST + 1) as u64) as i64;
         let be = rng.range(1, 4) as i128;
